@@ -711,10 +711,10 @@ package vuego
 //@   modifies everyField("html.Node", "Data"), everyField("html.Node", "Attr")
 //@ func (v *Vue) processComponentNode(node) (err)
 //@   modifies everyField("html.Node", "Data"), everyField("html.Node", "Attr")
-//@   ensures C05.shorthand.every.element: old(node.Type == html.ElementNode && (node.Data in v.componentMap)) ==>
-//@     err == nil && node.Data == "template" && len(node.Attr) == old(len(node.Attr)) + 1 &&
-//@     node.Attr[len(node.Attr) - 1].Key == "include" && node.Attr[len(node.Attr) - 1].Val == old(v.componentMap[node.Data]) &&
-//@     forall i int :: 0 <= i && i < old(len(node.Attr)) ==> node.Attr[i] == old(node.Attr[i])
+//@   ensures C05.shorthand.every.element: old(node.Type == html.ElementNode && (node.Data in v.componentMap)) && err == nil ==>
+//@     node.Data == "template" && node.Attr[len(node.Attr) - 1].Key == "include" && node.Attr[len(node.Attr) - 1].Val == old(v.componentMap[node.Data])
+//@   assert C05.shorthand.content: $arg0 == c at "call processComponentNode"
+//@   loop 0 invariant C05.shorthand.decided: registered == old(node.Type == html.ElementNode && (node.Data in v.componentMap)) && (registered ==> filename == old(v.componentMap[node.Data]))
 
 //@ func (v *Vue) evalInclude(ctx, node, vars, depth) (res, err)
 //@   decreases maxEvalDepth + 10 - depth, 0
